@@ -254,6 +254,7 @@ class Engine:
             elif a.eq(b): m.store[oid] = a
             else:
                 c = FreshConst(a.sort(), 'j'); m.pc += [Implies(cond, c == a), Implies(Not(cond), c == b)]; m.store[oid] = c
+        self._merge_s1, self._merge_s2 = s1, s2
         for name in set(s1.env) | set(s2.env):
             a, b = s1.env.get(name), s2.env.get(name)
             m.env[name] = self.merge_val(m, cond, a, b, name)
@@ -285,10 +286,20 @@ class Engine:
             return PV(a.t, c, none)
         if isinstance(a, PRef) and isinstance(b, PRef) and a.t == b.t:
             if a.root == b.root and a.path == b.path and a.none is b.none: return a
-            # different objects on the two branches: join by value into a fresh frozen object
+            # different objects on the two branches: join by value into a fresh object.  If each side is a whole object that only this name refers to
+            # (allocated and not shared), the joined object is again exclusively owned and may be mutated later; otherwise it is frozen.
+            def exclusive(st_, r):
+                if r.path or r.root in st_.frozen or r.root in self.param_roots.values(): return False
+                n = 0
+                for v in st_.env.values():
+                    v = v.val if isinstance(v, PMaybe) else v
+                    n += sum(1 for rr in self.roots_in(v) if rr == r.root)
+                return n == 1
+            own = exclusive(self._merge_s1, a) and exclusive(self._merge_s2, b)
             ta, tb = self.read_path_in(m, a), self.read_path_in(m, b)
             c = FreshConst(a.t.sort(), 'j_' + name); m.pc += [Implies(cond, c == ta), Implies(Not(cond), c == tb)]
-            oid = next(_oid); m.store[oid] = c; m.types = dict(m.types); m.types[oid] = a.t; m.frozen[oid] = 'joined reference ' + name
+            oid = next(_oid); m.store[oid] = c; m.types = dict(m.types); m.types[oid] = a.t
+            if not own: m.frozen[oid] = 'joined reference ' + name
             none = False if (a.none is False and b.none is False) else If(cond, a.none if a.none is not False else BoolVal(False), b.none if b.none is not False else BoolVal(False))
             return PRef(a.t, oid, (), none)
         raise Unsupported('cannot merge values of %s at join' % name)
